@@ -46,7 +46,7 @@ fn pick_bufsize(rng: &mut Rng, l: usize) -> usize {
 }
 
 fn expected_line(pre: &Preamble, left: &[u8]) -> String {
-    format!("ok id={} role={} flags={} env={} left={}", pre.id, pre.role, pre.flags, env_fmt(&spec_env(&pre.pairs)), hexd(left))
+    format!("ok id={} role={} flags={} env={} acc=ok left={}", pre.id, pre.role, pre.flags, env_fmt(&spec_env(&pre.pairs)), hexd(left))
 }
 
 fn chunkings_for(rng: &mut Rng, wire_len: usize, exhaustive_cuts: bool, n_random: usize) -> Vec<Chunking> {
@@ -326,6 +326,14 @@ pub fn c03_req(ctx: &mut Ctx, log: &mut Log, im: &mut Impl, or: &mut Oracle) {
                 if !(o1.starts_with("done=true out=- ") && r1 == res) {
                     or.fail(format!("after done/fatal a further parse(0) returned `{o1}` / `{}` (first result `{}`)", &r1[..r1.len().min(60)], &res[..res.len().min(60)]), log.replay_block(), "C03:req-not-sticky".into());
                 }
+            }
+            // the other conversion, at whatever state the parser is in (consumes it): Done => the stream parser, Fatal => that
+            // error, anything else => Interrupted
+            if k % 2 == 1 {
+                let o = ex(log, im, "req.into_stream");
+                let good = if !f.done { o == "err interrupted" } else if res.starts_with("ok ") { o.starts_with("ok ") } else { o == res };
+                if !good { or.fail(format!("into_stream_parser at a {} state returned `{}` (into_request on a clone: `{}`)", if f.done { "final" } else { "non-final" }, &o[..o.len().min(60)], &res[..res.len().min(60)]), log.replay_block(), "C03:req-into-stream".into()); }
+                or.count(if !f.done { "into_stream=non-final" } else if res.starts_with("ok ") { "into_stream=done" } else { "into_stream=fatal" });
             }
             let (core, left) = match res.find(" left=") { Some(i) => (res[..i].to_string(), unhex(&res[i + 6..])), None => (res.clone(), vec![]) };
             let mut rest = left; if res.starts_with("ok") { rest.extend(&wire[f.fed..]); }
